@@ -263,7 +263,7 @@ func RunFile(harnesses map[string]func()) (int, error) {
 		if !ok {
 			continue
 		}
-		o := RunCase(&cases[i], f, 60*time.Second)
+		o := RunCase(&cases[i], f, 100000*time.Hour) // the clock is fake (-tags faketime): busy hangs are ended by timeout(1) from outside
 		outs = append(outs, o)
 		if o.Timeout {
 			break // the stuck goroutine still runs; stop here
